@@ -541,6 +541,9 @@ def _disjuncts(e, lin_memo, exp_memo):
         return _disjuncts(e.args[0], lin_memo, exp_memo)
     lf = linear_form(e, lin_memo)
     if lf is not None:
+        if set(lf.keys()) <= {1}:
+            # a constant: non-zero never vanishes (no disjunct); zero: no information
+            return [] if lf.get(1, 0) % R else None
         return [lf]
     if e.op == "*":
         a = _disjuncts(e.args[0], lin_memo, exp_memo)
